@@ -22,6 +22,9 @@ if os.path.exists(os.path.join(vlib.LEAN_DIR, "Yarel", "Props", "C14.lean")):
     THEOREM_MODULES = ["Yarel.Props.C14", "Yarel.Props.SpecModules"]
     REQUIRED_THEOREMS = ["import_loaded_does_not_rerun", "import_loading_is_circular", "import_missing_is_error", "import_uncompilable_is_error",
                          "raise_keeps_registry", "body_at_most_once", "same_object", "cycle_reported", "globals_private"]
+# who writes the state the mechanism models are about: the set of write sites per group of fields, regenerated on every run (Props/StateWrites)
+THEOREM_MODULES.append("Yarel.Props.StateWrites")
+REQUIRED_THEOREMS += ['writers_of_module_registry']
 LEVEL = "proof"
 ASSUMPTIONS = [
     "registry model Yarel/Model/Modules.lean transcribes start_import_impl/finish_import_impl (tie: replay of real import events)",
